@@ -22,7 +22,8 @@ RULE = ('each generated history is executed on the real code under: the unmodifi
         'observation (all attribute values, running sets, statistics, validation data, exception classes of every op) '
         'must equal the baseline up to float noise; the baseline itself is compared with the Lean spec (order-free by '
         'construction). Non-trivial: (history, schedule) pairs where the history has >= 10 ops; distinct by '
-        '(seed, schedule).')
+        '(seed, schedule).'
+        ' Also: the same delivery-order / hash-salt schedules on reactive-armor-hardener histories, restriction worlds and statistics worlds (recorded operations replayed under every schedule), a designed two-group hardener world (one change message naming a relevant and an irrelevant hardener) and designed resource worlds (cpu users summing exactly to the output; a module whose cpu use comes from its own modifier started together with `online`) under all 24 group orders and 12 salts.')
 ASSUMPTIONS = ['float summation order noise tolerated (1e-9 relative)',
                'the RAH simulator subscribes like the other services and is permuted with them; universes with running '
                'reactive armor hardeners are exercised in C12']
